@@ -27,6 +27,7 @@ pub fn registry() -> Vec<&'static dyn Check> {
 /// program families of a check (debugging aid)
 pub fn families_of(id: &str, tier: cvx_core::engine::Tier) -> &'static Vec<Box<dyn cvx_core::gen_basic::Family>> {
     match id {
+        "C04" => c04::families(tier),
         "C06" => c06::families(tier),
         "C08" => c08::families(tier),
         "C09" => c09::families(tier),
